@@ -11,6 +11,16 @@ Local Open Scope Z_scope.
 From Coq Require Import Sorted.
 From DSW Require ShuffleProofs WalkProofs.
 
+(* Proved here (is_faster = True): decode_fast_gen_ok and decode_fast_gen_raise, both corollaries of decode_fast_gen_both.
+   No while loop in this mode.  zeros(shape=(bit_length,), dtype=int) is varr (repeat 0 (Z.to_nat L)); the for loop over
+   enumerate(dna_sequence) is Coder.decode_fast with the vertex, the bit array and message_location as accumulators (loop_ok,
+   by induction on the strand; one iteration is body_ok against the one-step model dstep).  The pieces: (a) eval_used:
+   where(accessor[vertex_index] >= 0)[0] = varr (used_indices row); (b) eval_comp / in_nucs / indexof_nucs: the comprehension of
+   used nucleotides and its `in` / `.index` tests = nuc_index / first_pos; (c) exec_shuffle: the unshuffled digit =
+   unshuffle_digit (table_shape gives the row and the distinct keys NumPy's argsort needs); (d) store_write / exec_write: the array
+   writes = write_bit (write_step); (f) the check comparison at the top uses set_vt_callee only (callees_ok is not needed in this
+   mode: none of the functions of dsw/operation.py is called). *)
+
 (* ---- tactics (as in ConvGenProofs.v) ---------------------------------------------------------------------------------- *)
 Ltac lk := repeat (rewrite lookup_update_same || (rewrite lookup_update_other by discriminate)).
 Ltac step := cbn [exec eval lift seq rbind assign items bind_tuple builtin1_val builtin2_val binop_vals binop_scalar cmp_vals cmp_scalar
@@ -523,4 +533,198 @@ Section Fast.
         intro H; injection H as <- <-. apply write_bit_len in W1. split; [congruence|lia].
       + destruct (radix =? 1); [|discriminate]. intro H; injection H as <- <-. split; [reflexivity|lia].
   Qed.
+
+  Lemma row_facts v : 0 <= v < Z.of_nat (length acc) ->
+    exists row, py_get acc v = Ok row /\ length row = 4%nat /\ Forall (fun x => -1 <= x < Z.of_nat (length acc)) row.
+  Proof.
+    intro Hv. exists (nth (Z.to_nat v) acc []). split; [apply ShuffleProofs.py_get_ok; exact Hv|].
+    unfold acc_shape in Hacc. rewrite Forall_forall in Hacc. apply Hacc. apply nth_In. lia.
+  Qed.
+
+  Lemma next_facts row j rem : length row = 4%nat -> Forall (fun x => -1 <= x < Z.of_nat (length acc)) row ->
+    first_pos j (used_indices row) 0 = Some rem ->
+    exists nxt, py_get row j = Ok nxt /\ 0 <= nxt < Z.of_nat (length acc).
+  Proof.
+    intros Hl4 Hbnd Hp. apply ShuffleProofs.first_pos_some in Hp. destruct Hp as (n & Hn & _ & Hx).
+    assert (Hin : In j (used_indices row)) by (rewrite <- Hx; apply nth_In; exact Hn).
+    apply (proj2 (WalkProofs.used_indices_spec row Hl4)) in Hin. destruct Hin as [Hj Hge].
+    exists (nth (Z.to_nat j) row (-1)). split; [apply ShuffleProofs.py_get_ok; lia|].
+    rewrite Forall_forall in Hbnd. specialize (Hbnd (nth (Z.to_nat j) row (-1)) ltac:(apply nth_In; lia)). lia.
+  Qed.
+
+  Lemma body_ok en i c v bits loc :
+    Inv en v bits loc -> 0 <= v < Z.of_nat (length acc) -> Z.of_nat (length bits) = L -> 0 <= loc ->
+    match dstep c v bits loc with
+    | Ok (nxt, (b, l)) =>
+        exists en', seq (assign ce (TTuple ["location"; "nucleotide"]) (VTuple [VInt i; VStr [c]]) en) (exec ce fuel dfast_body)
+                    = ONormal en' /\
+          Inv en' nxt b l /\ 0 <= nxt < Z.of_nat (length acc) /\ Z.of_nat (length b) = L /\ 0 <= l
+    | Raise e => seq (assign ce (TTuple ["location"; "nucleotide"]) (VTuple [VInt i; VStr [c]]) en) (exec ce fuel dfast_body) = OExn e
+    | OutOfFuel => True
+    end.
+  Proof.
+    intros (HN & HA & HS & HB & HV & HM & HP) Hv Hlen Hloc.
+    destruct (row_facts v Hv) as (row & Hrow & Hl4 & Hbnd).
+    unfold dstep. rewrite Hrow. cbn [bind].
+    pose proof (used_range row Hl4) as HF. pose proof (used_nodup row) as Hnd.
+    set (used := used_indices row) in *.
+    cbn [assign items lift bind_tuple seq]. unfold dfast_body.
+    rewrite exec_seq, exec_assign. rewrite (eval_used _ v row) by (lk; assumption). cbn [lift assign seq]. fold used.
+    rewrite exec_seq, exec_assign. cbn [eval]. lk. cbn [rbind]. rewrite len_varr. cbn [lift assign seq].
+    rewrite exec_seq, exec_assign. rewrite (eval_comp _ used) by (lk; first [assumption|reflexivity]). cbn [lift assign seq].
+    rewrite exec_seq, exec_if. cbn [eval]. lk. cbn [rbind]. rewrite (in_nucs c used HF). cbn [lift truthy].
+    destruct (nuc_index c) as [j|] eqn:Hj; [|rewrite exec_raise; reflexivity].
+    destruct (first_pos j used 0) as [rem|] eqn:Hrem; [|rewrite exec_raise; reflexivity].
+    rewrite exec_assign. cbn [eval]. lk. cbn [rbind]. rewrite (indexof_nucs c used j rem HF Hj Hrem). cbn [lift assign seq].
+    rewrite exec_seq.
+    match goal with |- context [exec ce fuel shuffle_stmt ?E] => set (en5 := E) end.
+    assert (HSh := exec_shuffle en5 v used rem).
+    do 4 (lapply HSh; [clear HSh; intro HSh|unfold en5; lk; first [assumption|reflexivity]]).
+    specialize (HSh Hv HF Hnd).
+    destruct (unshuffle_digit sh v used rem) as [rem'| |]; cbn [bind]; [|rewrite HSh; reflexivity|exact I].
+    destruct HSh as (en6 & E6 & HR6 & HF6). rewrite E6. cbn [seq].
+    destruct (next_facts row j rem Hl4 Hbnd Hrem) as (nxt & Hnxt & Hnb).
+    rewrite exec_seq, exec_assign.
+    rewrite (eval_next en6 v row c j) by (try assumption; rewrite HF6 by discriminate; unfold en5; lk; first [assumption|reflexivity]).
+    rewrite Hnxt. cbn [bind lift assign seq].
+    match goal with |- context [exec ce fuel write_stmt ?E] => set (en7 := E) end.
+    assert (HW := exec_write en7 (Z.of_nat (length used)) rem' bits loc).
+    do 5 (lapply HW; [clear HW; intro HW|unfold en7; lk; try exact HR6; rewrite HF6 by discriminate; unfold en5; lk; first [assumption|reflexivity]]).
+    specialize (HW Hlen Hloc).
+    destruct (write_step (Z.of_nat (length used)) rem' bits loc) as [[b l]| |] eqn:EW; cbn [bind]; [|exact HW|exact I].
+    destruct HW as (en8 & E8 & HM8 & HP8 & HF8). exists en8. split; [exact E8|].
+    destruct (write_step_len _ _ _ _ _ _ Hloc EW) as [Hbl Hl0].
+    split; [|split; [exact Hnb|split; [rewrite Hbl; exact Hlen|exact Hl0]]].
+    unfold Inv. repeat split; try assumption;
+      (rewrite HF8 by discriminate; unfold en7; lk; try reflexivity; rewrite HF6 by discriminate; unfold en5; lk; assumption).
+  Qed.
+
+  Definition out_ok (o : outcome) (r : result (list Z)) : Prop :=
+    match r with
+    | Ok b => exists en', o = ONormal en' /\ lookup "binary_message" en' = Ret (varr b)
+    | Raise e => o = OExn e
+    | OutOfFuel => True
+    end.
+
+  (* (e) the loop is decode_fast *)
+  Lemma loop_ok : forall s i en v bits loc,
+    Inv en v bits loc -> 0 <= v < Z.of_nat (length acc) -> Z.of_nat (length bits) = L -> 0 <= loc ->
+    out_ok (for_loop ce fuel (TTuple ["location"; "nucleotide"]) dfast_body (enumerate_from i (chars s)) en)
+           (decode_fast s acc v sh bits loc).
+  Proof.
+    induction s as [|c t IH]; intros i en v bits loc HI Hv Hlen Hloc.
+    - cbn [chars map enumerate_from for_loop decode_fast out_ok]. exists en. split; [reflexivity|].
+      destruct HI as (_ & _ & _ & _ & _ & HM & _). exact HM.
+    - rewrite decode_fast_cons.
+      change (enumerate_from i (chars (c :: t))) with (VTuple [VInt i; VStr [c]] :: enumerate_from (i + 1) (chars t)).
+      rewrite for_loop_cons. pose proof (body_ok en i c v bits loc HI Hv Hlen Hloc) as HB.
+      destruct (dstep c v bits loc) as [[nxt [b l]]| |]; cbn [bind fst snd].
+      + destruct HB as (en' & E & HI' & Hv' & Hlen' & Hl'). rewrite E. cbn [seq]. apply IH; assumption.
+      + rewrite HB. reflexivity.
+      + exact I.
+  Qed.
 End Fast.
+
+(* ---- the whole function ------------------------------------------------------------------------------------------------- *)
+Ltac evc := cbn [eval lift seq rbind assign items bind_tuple builtin1_val builtin2_val binop_vals binop_scalar cmp_vals cmp_scalar is_arr orb
+                 truthy mixes_bool type_is lookup update String.eqb Ascii.eqb Bool.eqb negb].
+
+Definition vt_ok (vt : option (list Z)) (fuel : nat) : Prop :=
+  match vt with None => True | Some c => c <> [] /\ (2 * length c < fuel)%nat end.
+
+Definition res_rel (r : result (list Z)) (x : res val) : Prop :=
+  match r with Ok b => x = Ret (varr b) | Raise e => x = Exn e | OutOfFuel => True end.
+Definition out_rel (r : result (list Z)) (o : outcome) : Prop :=
+  match r with Ok b => o = OReturn (varr b) | Raise e => o = OExn e | OutOfFuel => True end.
+
+(* what follows the check of vt_check *)
+Definition decode_tail : stmt := match body decode_def with SSeq _ (SSeq _ t) => t | _ => SSkip end.
+
+Lemma map_repeat_int x n : repeat (VInt x) n = map VInt (repeat x n).
+Proof. induction n as [|n IH]; cbn [repeat map]; [reflexivity|rewrite IH; reflexivity]. Qed.
+
+Lemma listZ_eqb_sym : forall a b, listZ_eqb a b = listZ_eqb b a.
+Proof.
+  induction a as [|x a IH]; intros [|y b]; cbn [listZ_eqb]; try reflexivity.
+  rewrite (Z.eqb_sym x y), IH. reflexivity.
+Qed.
+
+Lemma tail_ok ce fuel s L acc v vtv sh verbose :
+  acc_shape acc -> 0 <= v < Z.of_nat (length acc) -> table_shape (length acc) sh -> 0 <= L ->
+  out_rel (decode_fast s acc v sh (repeat 0 (Z.to_nat L)) 0)
+    (exec ce fuel decode_tail
+       [("dna_sequence", VStr s); ("bit_length", VInt L); ("accessor", varr2 acc); ("start_index", VInt v);
+        ("is_faster", VBool true); ("vt_check", vtv); ("shuffles", v_table sh); ("verbose", VBool verbose);
+        ("vertex_index", VInt v); ("nucleotides", VStr [65; 67; 71; 84]); ("monitor", VOpaque)]).
+Proof.
+  intros Hacc Hv Hsh HL. unfold decode_tail. cbn [body decode_def].
+  rewrite exec_seq, exec_if. evc. rewrite exec_seq, (exec_assign ce fuel). evc. rewrite exec_for. evc.
+  rewrite map_repeat_int.
+  match goal with |- context [for_loop ce fuel _ _ _ ?E] => set (en1 := E) end.
+  assert (HI : Inv acc sh L en1 v (repeat 0 (Z.to_nat L)) 0) by (unfold Inv; repeat split; reflexivity).
+  assert (Hlen : Z.of_nat (length (repeat 0 (Z.to_nat L))) = L) by (rewrite repeat_length; lia).
+  pose proof (loop_ok ce fuel acc sh L Hacc Hsh s 0 en1 v (repeat 0 (Z.to_nat L)) 0 HI Hv Hlen ltac:(lia)) as HLoop.
+  unfold dfast_body, used_expr, comp_expr, next_expr, shuffle_stmt, write_stmt in HLoop.
+  destruct (decode_fast s acc v sh (repeat 0 (Z.to_nat L)) 0) as [r|e|]; cbn [out_ok out_rel] in *.
+  - destruct HLoop as (en' & E & HM). rewrite E. cbn [seq]. rewrite (exec_return ce fuel). cbn [eval]. rewrite HM. reflexivity.
+  - rewrite HLoop. reflexivity.
+  - exact I.
+Qed.
+
+(* (f) the check comparison at the top, then the loop *)
+Lemma decode_fast_gen_both ce fuel s L acc v vt sh verbose :
+  set_vt_callee ce fuel ->
+  acc_shape acc -> 0 <= v < Z.of_nat (length acc) -> table_shape (length acc) sh -> vt_ok vt fuel -> 0 <= L ->
+  res_rel (Coder.decode s L acc v true vt sh)
+    (run_fun ce fuel decode_def [VStr s; VInt L; varr2 acc; VInt v; VBool true; v_optstr vt; v_table sh; VBool verbose]).
+Proof.
+  intros Hset Hacc Hv Hsh Hvt HL. unfold run_fun. cbn [params body bind_params decode_def].
+  rewrite exec_seq, (exec_assign ce fuel). evc.
+  rewrite exec_seq.
+  match goal with |- context [seq _ (exec ce fuel ?T)] => change T with decode_tail end.
+  rewrite exec_if. evc. unfold Coder.decode.
+  destruct vt as [chk|]; cbn [v_optstr builtin1_val rbind truthy negb lift bind].
+  - destruct Hvt as [Hne Hfu].
+    rewrite exec_if. evc.
+    rewrite Hset by (destruct chk; [contradiction|cbn [length]; lia] || lia).
+    destruct (set_vt s (Z.of_nat (length chk))) as [c'|e|]; cbn [res_of_str rbind bind is_arr val_eqb lift truthy].
+    + rewrite (listZ_eqb_sym chk c'). destruct (listZ_eqb c' chk); cbn [negb].
+      * rewrite (exec_skip ce fuel). cbn [seq].
+        pose proof (tail_ok ce fuel s L acc v (VStr chk) sh verbose Hacc Hv Hsh HL) as HT.
+        destruct (decode_fast s acc v sh (repeat 0 (Z.to_nat L)) 0); cbn [out_rel res_rel] in *;
+          [rewrite HT; reflexivity|rewrite HT; reflexivity|exact I].
+      * rewrite (exec_raise ce fuel). reflexivity.
+    + reflexivity.
+    + exact I.
+  - rewrite (exec_skip ce fuel). cbn [seq].
+    pose proof (tail_ok ce fuel s L acc v VNone sh verbose Hacc Hv Hsh HL) as HT.
+    destruct (decode_fast s acc v sh (repeat 0 (Z.to_nat L)) 0); cbn [out_rel res_rel] in *;
+      [rewrite HT; reflexivity|rewrite HT; reflexivity|exact I].
+Qed.
+
+Theorem decode_fast_gen_ok : forall ce fuel s L acc v vt sh verbose r,
+  callees_ok ce fuel -> set_vt_callee ce fuel ->
+  acc_shape acc -> 0 <= v < Z.of_nat (length acc) -> table_shape (length acc) sh -> vt_ok vt fuel -> 0 <= L ->
+  Coder.decode s L acc v true vt sh = Ok r ->
+  run_fun ce fuel decode_def [VStr s; VInt L; varr2 acc; VInt v; VBool true; v_optstr vt; v_table sh; VBool verbose]
+  = Ret (varr r).
+Proof.
+  intros ce fuel s L acc v vt sh verbose r _ Hset Hacc Hv Hsh Hvt HL HD.
+  pose proof (decode_fast_gen_both ce fuel s L acc v vt sh verbose Hset Hacc Hv Hsh Hvt HL) as H.
+  rewrite HD in H. exact H.
+Qed.
+
+Theorem decode_fast_gen_raise : forall ce fuel s L acc v vt sh verbose e,
+  callees_ok ce fuel -> set_vt_callee ce fuel ->
+  acc_shape acc -> 0 <= v < Z.of_nat (length acc) -> table_shape (length acc) sh -> vt_ok vt fuel -> 0 <= L ->
+  Coder.decode s L acc v true vt sh = Raise e ->
+  run_fun ce fuel decode_def [VStr s; VInt L; varr2 acc; VInt v; VBool true; v_optstr vt; v_table sh; VBool verbose]
+  = Exn e.
+Proof.
+  intros ce fuel s L acc v vt sh verbose e _ Hset Hacc Hv Hsh Hvt HL HD.
+  pose proof (decode_fast_gen_both ce fuel s L acc v vt sh verbose Hset Hacc Hv Hsh Hvt HL) as H.
+  rewrite HD in H. exact H.
+Qed.
+
+Print Assumptions decode_fast_gen_ok.
+Print Assumptions decode_fast_gen_raise.
